@@ -18,12 +18,21 @@ from common import impl, REPO, VENV_PY, exc_kind
 import gen_text as G
 
 KINDS = ["argparse_function", "class", "function"]
+
+
+def kind_of(tk):
+    """target key -> kind ('function#2' is a second file of kind function)"""
+    return tk.split("#")[0]
+
+
+def file_of(tk):
+    return tk.replace("#", "_") + ".py"
 PLURAL = {"argparse_function": "argparse_functions", "class": "classes", "function": "functions"}
 PRE_STATES = ["missing", "empty", "absent", "stale", "agreeing"]
 
 
 # ------------------------------------------------------------------ IRs in the conversion-safe family
-def safe_ir(rng, nparams=None):
+def safe_ir(rng, nparams=None, with_returns=False):
     """typed scalar / Optional / Literal parameters with explicit type-consistent defaults, clean prose,
     no return entry: every pair of kinds converts these without loss on the unchanged tree"""
     params = OrderedDict()
@@ -43,7 +52,11 @@ def safe_ir(rng, nparams=None):
         elif r < 0.35 and t == "str":
             typ = "Literal['mnist', 'adam', 'x y', 'relu']"
         params[n] = {"doc": G.clean_prose(rng), "typ": typ, "default": v}
-    return {"name": None, "type": "static", "doc": G.clean_prose(rng), "params": params, "returns": None}
+    ret = None
+    if with_returns:
+        ret = OrderedDict((("return_type", {"doc": G.clean_prose(rng), "typ": rng.choice(["int", "str"]),
+                                            "default": rng.choice(["```5```", "```x```"])}),))
+    return {"name": None, "type": "static", "doc": G.clean_prose(rng), "params": params, "returns": ret}
 
 
 def mutate_ir(rng, ir):
@@ -107,12 +120,14 @@ def indent_block(src, n=4):
     return "\n".join((pad + l if l.strip() else l) for l in src.split("\n"))
 
 
-def assemble_target(rng, kind, name, def_src, sur, position, trailing_newline, class_members=None):
-    """module text with `def_src` (None = absent) placed among `sur`.  For method targets name = 'C.meth':
-    the definition lives inside `class C` together with `class_members`."""
+def assemble_target(rng, kind, name, def_src, sur, position, trailing_newline, class_members=None, ending=None,
+                    module_doc=False, same_named_top=False):
+    """module text with `def_src` (None = absent) placed among `sur`.  For dotted names ('C.meth', 'Outer.K'):
+    the definition lives inside the enclosing class together with `class_members`; with same_named_top a module-level
+    statement of the same simple name is put before the enclosing class."""
     chunks = list(sur)
     if "." in name:
-        cls = name.split(".")[0]
+        cls, short = name.split(".")[0], name.split(".")[-1]
         members = list(class_members or [])
         if def_src is not None:
             idx = {"before": 0, "after": len(members)}.get(position, len(members) // 2)
@@ -123,21 +138,36 @@ def assemble_target(rng, kind, name, def_src, sur, position, trailing_newline, c
         cls_src = "class %s(object):\n%s" % (cls, body)
         idx = {"before": 0, "after": len(chunks)}.get(position, len(chunks) // 2)
         chunks.insert(idx, cls_src)
+        if same_named_top and kind == "class":
+            chunks.insert(0, rng.choice(["class %s(object):\n    marker = 1" % short, "%s = None" % short]))
     elif def_src is not None:
         idx = {"before": 0, "after": len(chunks)}.get(position, len(chunks) // 2)
         chunks.insert(idx, def_src)
+    if module_doc:
+        chunks.insert(0, '"""Module documentation.\n\nSecond paragraph of it.\n"""')
     text = "\n\n\n".join(chunks)
-    if text and trailing_newline:
-        text += "\n"
+    if text:
+        text += ("\n" if trailing_newline else "") if ending is None else ending
     return text
 
 
 # ------------------------------------------------------------------ scenarios
+ENDINGS = ["\n", "\n", "\n", "", " ", "\t", "\n    ", "  # trailing comment ", "\n\n"]
+BODIES = [
+    ["print({p0})"],
+    ["total = {p0}", "print(total, {p1})"],
+    ["for _ in range(2):\n    print({p0})", "helper_value = len(str({p1}))"],
+    ["if {p0}:\n    print({p1})\nelse:\n    print('none')"],
+]
+
+
 def gen_scenario(rng, via="api", runs=2, allow_known=True):
     truth = rng.choice(KINDS)
     given = set(KINDS) if rng.random() < 0.6 else {truth, rng.choice([k for k in KINDS if k != truth])}
     meth = rng.random() < (0.45 if allow_known else 0.0)
-    names = {"class": rng.choice(["ConfigClass", "Config", "TrainConfig"]),
+    nested_cls = allow_known and rng.random() < 0.2
+    cname = rng.choice(["ConfigClass", "Config", "TrainConfig"])
+    names = {"class": ("Outer.%s" % cname) if nested_cls else cname,
              "argparse_function": rng.choice(["set_cli_args", "build_parser_args"]),
              "function": ("C.%s" % rng.choice(["train", "function_name"])) if meth else rng.choice(["train", "fit"])}
     targets = {}
@@ -146,24 +176,40 @@ def gen_scenario(rng, via="api", runs=2, allow_known=True):
             continue
         pre = rng.choice(PRE_STATES)
         targets[k] = {"pre": pre, "n_sur": rng.randint(0, 4), "position": rng.choice(["before", "between", "after"]),
-                      "trailing_newline": rng.random() < 0.7, "sur_seed": rng.randint(0, 10 ** 9),
-                      "members": rng.randint(0, 2)}
+                      "trailing_newline": True, "ending": rng.choice(ENDINGS), "sur_seed": rng.randint(0, 10 ** 9),
+                      "members": rng.randint(0, 2), "module_doc": rng.random() < 0.25,
+                      "same_named_top": rng.random() < 0.5}
+    body = rng.randint(0, len(BODIES) - 1) if (truth == "function" and rng.random() < 0.6) else None
+    if body is not None and rng.random() < 0.6:
+        # a second file of the truth's kind: it is a target and receives the carried body
+        targets["function#2"] = {"pre": rng.choice(["missing", "empty", "absent"]), "n_sur": rng.randint(0, 3),
+                                 "position": rng.choice(["before", "between", "after"]), "trailing_newline": True,
+                                 "ending": "\n", "sur_seed": rng.randint(0, 10 ** 9), "members": 0, "module_doc": False,
+                                 "same_named_top": False}
     return {"truth": truth, "given": sorted(given), "names": names, "targets": targets, "ir_seed": rng.randint(0, 10 ** 9),
-            "via": via, "runs": runs, "truth_sur": rng.randint(0, 2), "truth_sur_seed": rng.randint(0, 10 ** 9)}
+            "via": via, "runs": runs, "truth_sur": rng.randint(0, 2), "truth_sur_seed": rng.randint(0, 10 ** 9),
+            "symlink": rng.random() < 0.2, "tilde": rng.random() < 0.15, "body": body,
+            "with_returns": truth == "argparse_function" and rng.random() < 0.4}
 
 
 def build_project(scn, root):
     """writes the files; returns dict(paths, gold_ir, expected defs)"""
     import random
     rng = random.Random(scn["ir_seed"])
-    ir = safe_ir(rng)
+    ir = safe_ir(rng, with_returns=bool(scn.get("with_returns")))
     stale = mutate_ir(rng, ir)
     paths = {k: os.path.join(root, k + ".py") for k in KINDS}
+    for tk in scn["targets"]:
+        paths[tk] = os.path.join(root, file_of(tk))
     truth, names = scn["truth"], scn["names"]
     ftype = "self" if "." in names["function"] else "static"
     # truth file
     tname = names[truth].split(".")[-1]
     tsrc = def_source(truth, ir, tname, ftype)
+    if scn.get("body") is not None and truth == "function":
+        pn = list(ir["params"]) or ["None"]
+        lines = [l.format(p0=pn[0], p1=pn[-1]) for l in BODIES[scn["body"]]]
+        tsrc = tsrc + "\n" + "\n".join(indent_block(l) for l in lines)
     trng = random.Random(scn["truth_sur_seed"])
     ttext = assemble_target(trng, truth, names[truth], tsrc, surroundings(trng, scn["truth_sur"]), "after", True,
                             class_members=[])
@@ -181,7 +227,8 @@ def build_project(scn, root):
                                                                       function_type=m.ast_utils.get_function_type(n))}[truth](gold_node)
     except Exception:  # noqa
         gold_ir = None
-    for k, t in scn["targets"].items():
+    for tk, t in scn["targets"].items():
+        k = kind_of(tk)
         srng = random.Random(t["sur_seed"])
         sur = surroundings(srng, t["n_sur"])
         members = [srng.choice(["def run(self):\n    pass", "z: int = 1", "def train_helper(self, a):\n    return a"])
@@ -200,8 +247,10 @@ def build_project(scn, root):
                 dsrc = def_source(k, stale, short, ftype if k == "function" else "static")
             else:
                 dsrc = def_source(k, gold_ir if gold_ir is not None else ir, short, ftype if k == "function" else "static")
-            text = assemble_target(srng, k, name, dsrc, sur, t["position"], t["trailing_newline"], members)
-        with open(paths[k], "w") as f:
+            text = assemble_target(srng, k, name, dsrc, sur, t["position"], t["trailing_newline"], members,
+                                   ending=t.get("ending"), module_doc=t.get("module_doc", False),
+                                   same_named_top=t.get("same_named_top", False))
+        with open(paths[tk], "w") as f:
             f.write(text)
     return {"paths": paths, "ir": ir, "stale": stale, "gold_ir": gold_ir, "ftype": ftype}
 
@@ -216,11 +265,24 @@ def snapshot(root):
     return out
 
 
+def access_paths(scn, root, paths):
+    """the paths as handed to doctrans: through a symlinked directory when the scenario says so"""
+    if scn.get("tilde"):
+        # "~" expands through $HOME, which run_api / run_cli point at the project root
+        return {k: os.path.join("~", os.path.basename(v)) for k, v in paths.items()}
+    if not scn.get("symlink"):
+        return paths
+    link = root.rstrip("/") + ".link"
+    if not os.path.islink(link):
+        os.symlink(root, link)
+    return {k: os.path.join(link, os.path.basename(v)) for k, v in paths.items()}
+
+
 def namespace_for(scn, paths):
     kw = {"truth": scn["truth"]}
     for k in KINDS:
         if k in scn["given"]:
-            kw[PLURAL[k]] = [paths[k]]
+            kw[PLURAL[k]] = [paths[k]] + [paths[tk] for tk in sorted(scn["targets"]) if "#" in tk and kind_of(tk) == k]
             kw[k + "_names"] = [scn["names"][k]]
         else:
             kw[PLURAL[k]] = None
@@ -235,6 +297,9 @@ def cli_argv(scn, paths):
     for k in KINDS:
         if k in scn["given"]:
             argv += [opt[k][0], paths[k], opt[k][1], scn["names"][k]]
+            for tk in sorted(scn["targets"]):
+                if "#" in tk and kind_of(tk) == k:
+                    argv += [opt[k][0], paths[tk]]
     return argv
 
 
@@ -367,22 +432,32 @@ class Recorder:
             m.emit.file = orig["file"]
 
 
-def run_api(scn, paths, recorder=None, fault=None):
+def run_api(scn, paths, recorder=None, fault=None, home=None):
     """one ground_truth call; returns dict(result | exception, stdout)"""
     m = impl()
     ns = namespace_for(scn, paths)
     buf = io.StringIO()
     out = {"calls": None}
     ctx = recorder.installed(fault) if recorder is not None else contextlib.nullcontext()
+    old_home = os.environ.get("HOME")
+    if home is not None:
+        os.environ["HOME"] = home
     try:
         with ctx, contextlib.redirect_stdout(buf):
-            r = m.conformance.ground_truth(ns, paths[scn["truth"]])
+            # as __main__.main does: the truth file is expanded and resolved before ground_truth is called
+            r = m.conformance.ground_truth(ns, os.path.realpath(os.path.expanduser(paths[scn["truth"]])))
         out["result"] = [(os.path.basename(k), bool(v)) for k, v in r.items()]
         out["exception"] = None
     except Exception as e:  # noqa
         out["result"] = None
         out["exception"] = exc_kind(e)
         out["exception_text"] = "%s: %s" % (type(e).__name__, e)
+    finally:
+        if home is not None:
+            if old_home is None:
+                os.environ.pop("HOME", None)
+            else:
+                os.environ["HOME"] = old_home
     out["stdout"] = buf.getvalue()
     return out
 
@@ -402,18 +477,18 @@ def run_scenario(scn, record=True):
     root = tempfile.mkdtemp(prefix="doctrans-verif-sync.")
     try:
         proj = build_project(scn, root)
-        paths = proj["paths"]
+        paths = access_paths(scn, root, proj["paths"])
         snaps = [snapshot(root)]
         runs = []
         rec_calls = []
         for i in range(scn["runs"]):
             if scn["via"] == "cli":
-                r = run_cli(cli_argv(scn, paths))
+                r = run_cli(cli_argv(scn, paths), extra_env={"HOME": root})
                 run = {"exception": None if r["rc"] == 0 else ("exit-%d" % r["rc"]), "stdout": r["stdout"], "stderr": r["stderr"][-600:],
                        "result": None}
             else:
                 rec = Recorder() if record else None
-                run = run_api(scn, paths, rec)
+                run = run_api(scn, paths, rec, home=root)
                 if rec is not None:
                     rec_calls.append(rec.calls)
             runs.append(run)
@@ -422,25 +497,50 @@ def run_scenario(scn, record=True):
                 "root": root, "snaps": snaps, "runs": runs, "calls": rec_calls}
     finally:
         shutil.rmtree(root, ignore_errors=True)
+        if os.path.islink(root.rstrip("/") + ".link"):
+            os.remove(root.rstrip("/") + ".link")
 
 
 # ------------------------------------------------------------------ fault injection inside emit.file
 class Fault:
-    """I/O fault at one point of one emit.file call: kind in {'fail-read-old', 'fail-open-tmp', ('fail-write-tmp', k),
-    'fail-replace'}, applied to the call whose target basename is `target` (first such call only)."""
+    """Implementation-agnostic I/O fault for ONE emit.file call (the first one whose target basename is `target`):
+    every I/O operation the call performs -- open for reading, open for writing, each write(), os.replace -- is
+    counted; operation number `op_index` raises OSError (a write first lets `k` characters through).  With
+    op_index=None nothing fails and the operations are only logged (`ops`), which is how the fault points of a call
+    are enumerated."""
 
-    def __init__(self, kind, target):
-        self.kind, self.target, self.fired, self.armed = kind, target, False, False
-        self.filename = None
+    def __init__(self, target, op_index=None, k=0):
+        self.target, self.op_index, self.k = target, op_index, k
+        self.fired, self.armed, self.done = False, False, False
+        self.filename, self.ops, self.fired_op = None, [], None
 
     def wire(self):
+        """the fault as the Coq model knows it (None when the fired operation has no counterpart in the model)"""
         from common import Sym
-        if isinstance(self.kind, tuple):
-            return [Sym(self.kind[0]), self.kind[1]]
-        return Sym(self.kind)
+        op = self.fired_op
+        if op is None:
+            return Sym("nofault")
+        if op[0] == "open-r":
+            return Sym("fail-read-old")
+        if op[0] == "open-w" and op[1] == "tmp":
+            return Sym("fail-open-tmp")
+        if op[0] == "write" and op[1] == "tmp":
+            return [Sym("fail-write-tmp"), self.k]
+        if op[0] == "replace":
+            return Sym("fail-replace")
+        return None
+
+    def _op(self, desc):
+        """log one operation; True when it is the one that must fail"""
+        idx = len(self.ops)
+        self.ops.append(desc)
+        if self.op_index is not None and idx == self.op_index and not self.fired:
+            self.fired, self.fired_op = True, desc
+            return True
+        return False
 
     def arm(self, filename):
-        if self.fired or os.path.basename(filename) != self.target:
+        if self.done or os.path.basename(filename) != self.target:
             return
         m = impl()
         self.armed, self.filename = True, filename
@@ -448,15 +548,22 @@ class Fault:
         real_open = open
         tmp = filename + ".doctrans-tmp"
 
+        def which(p):
+            return "tmp" if p == tmp else "target" if p == filename else "other"
+
         class W:
-            def __init__(self, f, k):
-                self.f, self.k = f, k
+            def __init__(self, f, p):
+                self.f, self.p = f, p
 
             def write(self, s):
-                self.f.write(s[:self.k])
-                self.f.flush()
-                fault.fired = True
-                raise OSError("injected: write failed after %d characters" % self.k)
+                if fault._op(("write", which(self.p), len(s))):
+                    self.f.write(s[:fault.k])
+                    self.f.flush()
+                    raise OSError("injected: write failed after %d characters" % fault.k)
+                return self.f.write(s)
+
+            def read(self, *a):
+                return self.f.read(*a)
 
             def __enter__(self):
                 return self
@@ -465,26 +572,25 @@ class Fault:
                 self.f.close()
                 return False
 
+            def __getattr__(self, name):
+                return getattr(self.f, name)
+
         def fake_open(p, mode="r", *a, **kw):
-            if fault.kind == "fail-read-old" and p == filename and "r" in mode:
-                fault.fired = True
-                raise OSError("injected: read failed")
-            if fault.kind == "fail-open-tmp" and p == tmp:
-                fault.fired = True
-                raise OSError("injected: open failed")
-            if isinstance(fault.kind, tuple) and p == tmp:
-                return W(real_open(p, mode, *a, **kw), fault.kind[1])
-            return real_open(p, mode, *a, **kw)
+            writing = any(c in mode for c in "wax+")
+            if fault._op(("open-w" if writing else "open-r", which(p), mode)):
+                raise OSError("injected: open(%s, %r) failed" % (os.path.basename(p), mode))
+            f = real_open(p, mode, *a, **kw)
+            return W(f, p) if writing else f
 
         def fake_replace(a, b):
-            if fault.kind == "fail-replace":
-                fault.fired = True
+            if fault._op(("replace", which(a), which(b))):
                 raise OSError("injected: replace failed")
             return os.replace(a, b)
 
         m.emit.open = fake_open
-        self._real_replace = m.emit.replace
-        m.emit.replace = fake_replace
+        self._real_replace = m.emit.replace if hasattr(m.emit, "replace") else None
+        if self._real_replace is not None:
+            m.emit.replace = fake_replace
 
     def disarm(self):
         if not self.armed:
@@ -492,5 +598,19 @@ class Fault:
         m = impl()
         if "open" in vars(m.emit):
             del m.emit.open
-        m.emit.replace = self._real_replace
-        self.armed = False
+        if self._real_replace is not None:
+            m.emit.replace = self._real_replace
+        self.armed, self.done = False, True
+
+
+def fault_points(ops, rng=None):
+    """(op_index, k) pairs covering every operation of a logged emit.file call; writes get several k"""
+    pts = []
+    for i, op in enumerate(ops):
+        if op[0] == "write":
+            n = op[2]
+            for k in sorted({0, 1, max(1, n // 2), max(1, n - 1)}):
+                pts.append((i, k))
+        else:
+            pts.append((i, 0))
+    return pts
